@@ -5,7 +5,7 @@ from fractions import Fraction
 
 from . import refnum as R
 from . import refparse
-from .common import Stats, Violation, hx, pmap, shim, finish
+from .common import Stats, Violation, hx, pmap, shim, finish, collect
 
 L5 = [0, 1, 1 << 31, (1 << 32) - 2, (1 << 32) - 1]
 L8 = L5 + [2, (1 << 31) - 1, 1 << 16]
@@ -249,12 +249,9 @@ def run_c05(tier):
                  (1 << 64) - 1, 1 << 64, -(1 << 63), (1 << 96) - 1, 6, -6, 1 << 16, (1 << 33) + 5,
                  -(1 << 64) - 1, 12345678901234567890, -4294967294, 4294967295 * 4294967295]
     tasks = [(values, list(range(i, min(i + chunk, len(values)))), text_bits) for i in range(0, len(values), chunk)]
-    for r in pmap(c05_rows, tasks):
-        st.merge(r)
-    for r in pmap(c05_singles, [(single_k, L5 if tier == 'quick' else L8, text_bits)]):
-        st.merge(r)
-    for r in pmap(c05_closure, [(seeds, True)]):
-        st.merge(r)
+    collect(st, pmap(c05_rows, tasks))
+    collect(st, pmap(c05_singles, [(single_k, L5 if tier == 'quick' else L8, text_bits)]))
+    collect(st, pmap(c05_closure, [(seeds, True)]))
     cov = {
         'states': len(values) + st.n.get('closure_values_depth1', 0) + st.n.get('closure_values_depth2', 0),
         'transitions': st.n.get('transitions', 0),
@@ -549,11 +546,9 @@ def run_c06(tier):
     nvals = len(set(Fraction(p, q) for p, q in pairs)) + 1
     chunk = 4 if tier == 'quick' else 2
     tasks = [(pairs, list(range(i, min(i + chunk, nvals))), 130) for i in range(0, nvals, chunk)]
-    for r in pmap(c06_rows, tasks):
-        st.merge(r)
+    collect(st, pmap(c06_rows, tasks))
     seeds = CLOSURE_SEEDS if tier == 'quick' else CLOSURE_SEEDS_T
-    for r in pmap(_c06_misc, [('unary', pairs, None, None), ('closure', None, seeds, True)]):
-        st.merge(r)
+    collect(st, pmap(_c06_misc, [('unary', pairs, None, None), ('closure', None, seeds, True)]))
     cov = {
         'states': nvals + st.n.get('closure_total', 0),
         'transitions': st.n.get('transitions', 0),
@@ -680,8 +675,7 @@ def run_c07(tier):
     chunk = 8
     tasks = [('rows', pairs, list(range(i, min(i + chunk, nvals)))) for i in range(0, nvals, chunk)]
     tasks.append(('calc', pairs, None))
-    for r in pmap(_c07_task, tasks):
-        st.merge(r)
+    collect(st, pmap(_c07_task, tasks))
     cov = {
         'states': nvals,
         'transitions': st.n.get('transitions', 0),
@@ -763,8 +757,7 @@ def run_c09(tier):
     st = Stats()
     tasks = [('base', b, tier) for b in range(2, 37)]
     tasks.append(('closure', CLOSURE_SEEDS if tier == 'quick' else CLOSURE_SEEDS_T, True))
-    for r in pmap(_c09_task, tasks):
-        st.merge(r)
+    collect(st, pmap(_c09_task, tasks))
     cov = {
         'states': st.n.get('base_values', 0) + st.n.get('closure_total', 0),
         'transitions': st.n.get('transitions', 0),
